@@ -128,7 +128,7 @@ func init() {
 		e := executor.NewExecutor(nil, nil, nil, br, &failFetcher{serial}, &sync.RWMutex{}, u64(a[0]), u64(a[1]))
 		var buf bytes.Buffer
 		old, oldLvl := log.Logger, zerolog.GlobalLevel()
-		log.Logger = zerolog.New(&lockedWriter{w: &buf, br: br})
+		log.Logger = zerolog.New(&lockedWriter{w: &buf, br: br, msgID: a[2]})
 		zerolog.SetGlobalLevel(zerolog.InfoLevel)
 		_ = e.Execute(ps)
 		log.Logger = old
@@ -158,6 +158,40 @@ func init() {
 		bs, err := e.VerifProposalBatches(ps)
 		if err != nil {
 			return "err"
+		}
+		sig := &tsscommon.SignatureData{R: []byte{1}, S: []byte{2}, SignatureRecovery: []byte{0}}
+		for _, b := range bs {
+			if len(b.Proposals) == 0 {
+				continue
+			}
+			if _, err := e.VerifExecuteBatch(b.Proposals, b.GasLimit, sig); err != nil {
+				return "err"
+			}
+		}
+		out := []string{}
+		for _, x := range br.execArgs {
+			f := strings.Split(x, "/")
+			out = append(out, f[0]+"/"+f[1])
+		}
+		return joinOr(out, ";")
+	}
+	// submitlate <cap> <tg> <props> <idx,idx,…>  =>  as submit : the listed proposals (by index) are reported executed by the
+	// destination AFTER the batches were built (another relayer got there first, signing took a while). The transaction a
+	// batch is submitted in is still the batch that was hashed and signed, with its own members' gas.
+	ops["C14.submitlate"] = func(a []string) string {
+		ps, st := mkProps(a[2], "m")
+		br := &fakeBridge{status: st}
+		e := executor.NewExecutor(nil, nil, nil, br, nil, &sync.RWMutex{}, u64(a[0]), u64(a[1]))
+		bs, err := e.VerifProposalBatches(ps)
+		if err != nil {
+			return "err"
+		}
+		for _, ix := range items(a[3], ",") {
+			i := u64(ix)
+			if int(i) >= len(ps) {
+				return "BADARGS"
+			}
+			st[[2]uint64{uint64(ps[i].Source), i}] = "e"
 		}
 		sig := &tsscommon.SignatureData{R: []byte{1}, S: []byte{2}, SignatureRecovery: []byte{0}}
 		for _, b := range bs {
@@ -213,19 +247,42 @@ func anyStatus(st map[[2]uint64]string, s string) bool {
 	return false
 }
 
-// lockedWriter turns "Starting session with ID" log lines into S: events in the bridge's event list.
+// lockedWriter turns the log line that announces a session (any wording, as long as it mentions the id) into an S: event
+// right after the H: event of the batch it belongs to.
 type lockedWriter struct {
-	w  *bytes.Buffer
-	br *fakeBridge
+	w     *bytes.Buffer
+	br    *fakeBridge
+	msgID string
+}
+
+func isDecimal(s string) bool {
+	if s == "" {
+		return false
+	}
+	for _, c := range s {
+		if c < '0' || c > '9' {
+			return false
+		}
+	}
+	return true
 }
 
 func (l *lockedWriter) Write(p []byte) (int, error) {
 	var m map[string]interface{}
 	if json.Unmarshal(p, &m) == nil {
-		if s, ok := m["message"].(string); ok && strings.HasPrefix(s, "Starting session with ID: ") {
-			l.br.mu.Lock()
-			l.br.events = append(l.br.events, "S:"+strings.TrimPrefix(s, "Starting session with ID: "))
-			l.br.mu.Unlock()
+		// the session id is whatever token of the log message has the form <message id>-<decimal> (the wording of the
+		// line is free); a line that does not mention one is not an observation
+		if s, ok := m["message"].(string); ok && l.msgID != "" {
+			for _, tok := range strings.FieldsFunc(s, func(r rune) bool { return r == ' ' || r == ':' || r == ',' || r == '"' || r == '\'' || r == '(' || r == ')' }) {
+				if strings.HasPrefix(tok, l.msgID+"-") && isDecimal(tok[len(l.msgID)+1:]) {
+					l.br.mu.Lock()
+					if n := len(l.br.events); n > 0 && strings.HasPrefix(l.br.events[n-1], "H:") {
+						l.br.events = append(l.br.events, "S:"+tok)
+					}
+					l.br.mu.Unlock()
+					break
+				}
+			}
 		}
 	}
 	return len(p), nil
@@ -290,6 +347,22 @@ func genC14(g *G) {
 			xs = append(xs, []string{"n", "0", "39", "40", "41", "100", "250", "1000"}[g.Intn(8)]+":"+st)
 		}
 		g.Emit("submit", "100", []string{"60", "0", "100", "101"}[g.Intn(4)], joinOr(xs, ";"))
+	}
+	// the same with some members executed by somebody else between batching and submission
+	for i := 0; i < g.Count(300, 6000); i++ {
+		n := 2 + g.Intn(5)
+		xs := []string{}
+		late := []string{}
+		for j := 0; j < n; j++ {
+			st := "p"
+			if g.Intn(6) == 0 {
+				st = "e"
+			} else if g.Intn(3) == 0 {
+				late = append(late, utoa(uint64(j)))
+			}
+			xs = append(xs, []string{"n", "0", "5", "39", "40", "41", "100", "250"}[g.Intn(8)]+":"+st)
+		}
+		g.Emit("submitlate", []string{"100", "1000"}[g.Intn(2)], []string{"60", "0", "10", "101"}[g.Intn(4)], joinOr(xs, ";"), joinOr(late, ","))
 	}
 	// several deliveries on one Executor, proposals from different source domains with equal nonces, executed earlier /
 	// pending later and the other way round
